@@ -92,6 +92,23 @@ def h(v):
     'pattern literal long'
     return 'pattern literal long', 'pattern literal long', 'pattern literal long'
 ''',
+    'literals in every kind of pattern, in guards and in case bodies': '''
+def route(event, fallback=b'payload bytes long'):
+    match event:
+        case {'notification_kind': 'created value', 'notification_payload': body}:
+            return 'created value', body, 'notification_kind'
+        case {'notification_kind': 'deleted value', **others} if others.get('notification_payload') == 'created value':
+            return 'deleted value', others, 'notification_payload'
+        case ['notification_kind', 'created value', *more] | ('deleted value', *more):
+            return more, 'notification_kind', 'deleted value'
+        case Point(label='notification_kind', tag=b'payload bytes long') | Point(label='created value'):
+            return None
+        case str() | bytes() | None | True:
+            return True, None, None, None, True, True
+        case b'payload bytes long' | 'notification_payload' as whole:
+            return whole, b'payload bytes long', 'notification_payload'
+    return 'notification_kind', 'notification_payload', 'created value', 'deleted value', b'payload bytes long', fallback
+''',
     'numbers are not hoisted, mixed types stay apart': '''
 def nums():
     return 123456789, 123456789, 123456789, 1.5, 1.5, 1.5, '1', '1', '1', '1', b'1', b'1', b'1', b'1', 1, True
